@@ -63,6 +63,16 @@ def check_factory(p):
             expect_raise(devs, f"holder.wrong_kind.{kind}->{acc}", fn, accept=(TypeError,))
     # histories through the factory: decoded PDUs stay what they are while further PDUs are decoded and buffers are reused
     devs.extend(M.pdu_histories(p, raw, wo, PduFactory.from_raw, tag="hist.factory", decode_other=PduFactory.from_raw))
+    # a refused header update (source and destination ids of different widths) on the PDU, then pack and decode through the factory
+    from spacepackets.util import ByteFieldGenerator
+
+    o2 = M.build_pdu(p)
+    w = p["conf"]["idw"]
+    expect_raise(devs, "refused_id_update", o2.pdu_header.set_entity_ids, ByteFieldGenerator.from_int(w, 1), ByteFieldGenerator.from_int({1: 2, 2: 4, 4: 8, 8: 1}[w], 2), accept=(ValueError,))
+    raw2 = bytes(o2.pack())
+    eq(devs, "pack_after_refused_id_update", raw2, raw)
+    y2 = PduFactory.from_raw(raw2)
+    true(devs, "from_raw.type_after_refused_id_update", type(y2) is cls, f"got {type(y2).__name__}")
     # a holder built directly around the original object behaves the same
     h2 = PduHolder(original)
     for k2, acc in ACCESSOR.items():
@@ -86,6 +96,42 @@ CLAUSES = [
     )
     for kind in M.KINDS
 ]
+
+def enum_large(tier, shard, nshards, rng):
+    """PDUs whose data field crosses 2^15 and approaches 2^16 octets (reached through long file data / thousands of segment requests)."""
+    cases = []
+    for crc in (0, 1):
+        for large in (0, 1):
+            conf = {"crc": crc, "large": large, "mode": 0, "dir": 0, "segctrl": 0, "idw": 2, "seqw": 2, "src": 0x1234, "dst": 0x00FF, "seq": 0xFFFE}
+            fss = 8 if large else 4
+            for dlen in (32767, 32768, 32769, 40000, 65535):
+                n = dlen - fss - (2 if crc else 0)
+                cases.append({"kind": "filedata", "conf": conf, "offset": 3, "data": {"len": n, "fill": 0x30 + crc, "step": 1}, "meta": None})
+            for nseg in ((32768 - 1 - 2 * fss) // (2 * fss), (32768 - 1 - 2 * fss) // (2 * fss) + 1):
+                cases.append({"kind": "nak", "conf": conf, "start": 1, "end": 2, "segs": {"n": nseg}})
+    for i, c in enumerate(cases):
+        if i % nshards == shard:
+            yield c
+
+
+def check_large(c):
+    if c["kind"] == "nak":
+        c = dict(c, segs=[[i, i + 1] for i in range(c["segs"]["n"])])
+    return check_factory(c)
+
+
+CLAUSES.append(
+    Clause(
+        id="C12.large",
+        doc="factory route for PDUs whose data field is 32767 / 32768 / 32769 / 40000 / 65535 octets (File Data) or just below / above 2^15 (NAK with thousands of segment requests)",
+        kind="enum",
+        enum=enum_large,
+        check=check_large,
+        classify=lambda c: [c["kind"]] + (["crc on"] if c["conf"]["crc"] else []) + (["large file"] if c["conf"]["large"] else []),
+        required=["filedata", "nak", "crc on", "large file"],
+        shards={"quick": 8, "thorough": 8},
+    )
+)
 
 PROPERTY = Property(
     id="C12",
